@@ -65,27 +65,37 @@ def ofBits (b : Nat) : Option Dbl :=
 
 def infBits (neg : Bool) : Nat := (if neg then 2 ^ 63 else 0) + 2047 * 2 ^ 52
 
+/-- `a / (b * 2^q)` as a fraction -/
+def scale2 (a b : Nat) (q : Int) : Nat × Nat :=
+  if q ≥ 0 then (a, b * 2 ^ q.toNat) else (a * 2 ^ (-q).toNat, b)
+
+/-- the binary exponent `q` with `a / (b * 2^q) ∈ [2^52, 2^53)`, clamped at the subnormal
+exponent `-1074` (`a, b > 0`) -/
+def binExp (a b : Nat) : Int :=
+  -- a/b ∈ (2^(t-1), 2^(t+1)) with t = log2 a - log2 b
+  let t : Int := (Nat.log2 a : Int) - (Nat.log2 b : Int)
+  let q1 : Int := t - 53
+  let s1 := scale2 a b q1
+  let q2 : Int := if s1.1 / s1.2 ≥ 2 ^ 53 then q1 + 1 else q1
+  if q2 < -1074 then -1074 else q2
+
+/-- bit pattern of `(-1)^neg * m * 2^q` for a rounded significand `m ≤ 2^53` (`m = 2^53` is the
+carry into the next binade); overflow gives inf -/
+def encodeBits (neg : Bool) (m : Nat) (q : Int) : Nat :=
+  let s := if neg then 2 ^ 63 else 0
+  if m < 2 ^ 52 then s + m                     -- subnormal (q = -1074)
+  else
+    let (m', q') := if m ≥ 2 ^ 53 then (m / 2, q + 1) else (m, q)
+    let e : Int := q' + 1075
+    if e ≥ 2047 then infBits neg else s + e.toNat * 2 ^ 52 + (m' - 2 ^ 52)
+
 /-- nearest double (ties to even) of `(-1)^neg * a / b`, as a bit pattern; overflow gives inf. -/
 def toBits (neg : Bool) (a b : Nat) : Nat :=
-  let s := if neg then 2 ^ 63 else 0
-  if a == 0 then s
+  if a == 0 then (if neg then 2 ^ 63 else 0)
   else
-    -- a/b ∈ (2^(t-1), 2^(t+1)) with t = log2 a - log2 b
-    let t : Int := (Nat.log2 a : Int) - (Nat.log2 b : Int)
-    let scale (q : Int) : Nat × Nat :=          -- a / (b * 2^q) as a fraction
-      if q ≥ 0 then (a, b * 2 ^ q.toNat) else (a * 2 ^ (-q).toNat, b)
-    let q1 : Int := t - 53
-    let (A1, B1) := scale q1
-    let q2 : Int := if A1 / B1 ≥ 2 ^ 53 then q1 + 1 else q1
-    let q : Int := if q2 < -1074 then -1074 else q2
-    let (A, B) := scale q
-    let m := rheDiv A B
-    -- m ≤ 2^53; m = 2^53 is the carry into the next binade, handled by the encoding below
-    if m < 2 ^ 52 then s + m                     -- subnormal (q = -1074)
-    else
-      let (m', q') := if m ≥ 2 ^ 53 then (m / 2, q + 1) else (m, q)
-      let e : Int := q' + 1075
-      if e ≥ 2047 then infBits neg else s + e.toNat * 2 ^ 52 + (m' - 2 ^ 52)
+    let q := binExp a b
+    let s := scale2 a b q
+    encodeBits neg (rheDiv s.1 s.2) q
 
 /-- `'%.{p}f' % x` -/
 def fmtFixedN (p : Nat) (neg : Bool) (a b : Nat) : Str :=
@@ -95,40 +105,53 @@ def fmtFixedN (p : Nat) (neg : Bool) (a b : Nat) : Str :=
 
 def fmtF (p : Nat) (x : Dbl) : Str := fmtFixedN p x.neg x.num x.den
 
+/-- `10^e ≤ a / b` for an exponent `e ≤ 0` -/
+def ilogOk (a b : Nat) (e : Int) : Bool := 10 ^ (-e).toNat * a ≥ b
+
+/-- go down from `e` to the first exponent that fits -/
+def ilogDown (a b : Nat) : Nat → Int → Int
+  | 0, e => e
+  | fuel + 1, e => if ilogOk a b e then e else ilogDown a b fuel (e - 1)
+
+/-- go up while the next exponent (`≤ 0`) still fits -/
+def ilogUp (a b : Nat) : Nat → Int → Int
+  | 0, e => e
+  | fuel + 1, e => if e + 1 ≤ 0 && ilogOk a b (e + 1) then ilogUp a b fuel (e + 1) else e
+
 /-- largest `e` with `10^e * b ≤ a` (`a, b > 0`): the decimal exponent of `a / b`. -/
 def ilog10 (a b : Nat) : Int :=
   if a ≥ b then ((natDigits (a / b)).length : Int) - 1
   else
-    -- estimate from bit lengths, then correct (the estimate is off by at most 1 or 2)
+    -- estimate from bit lengths (off by one or two), then correct; the loops stop as soon as the
+    -- answer is reached, their fuel is what makes them total whatever the estimate
     let d : Int := (Nat.log2 a : Int) - (Nat.log2 b : Int)       -- a/b ∈ (2^(d-1), 2^(d+1))
-    let e0 : Int := (d * 30103) / 100000 - 2                       -- e0 < log10(a/b)
-    let ok (e : Int) : Bool := 10 ^ (-e).toNat * a ≥ b             -- 10^e ≤ a/b for e ≤ 0
-    -- go up while the next exponent still fits
-    let rec up (fuel : Nat) (e : Int) : Int :=
-      match fuel with
-      | 0 => e
-      | fuel + 1 => if e + 1 ≤ 0 && ok (e + 1) then up fuel (e + 1) else e
-    let rec down (fuel : Nat) (e : Int) : Int :=
-      match fuel with
-      | 0 => e
-      | fuel + 1 => if ok e then e else down fuel (e - 1)
-    up 8 (down 8 e0)
+    let e0 : Int := (d * 30103) / 100000 - 2
+    let e1 := ilogDown a b (e0 + (Nat.log2 b : Int) + 2).toNat e0
+    ilogUp a b (-e1).toNat e1
+
+/-- the `p+1` significant digits `N` and the decimal exponent `e` of `'%.{p}e' % x`:
+`|x| ≈ N · 10^(e-p)` with `10^p ≤ N < 10^(p+1)` (correctly rounded, ties to even) -/
+def eParts (p : Nat) (x : Dbl) : Nat × Int :=
+  if x.num == 0 then (0, 0)
+  else
+    let e := ilog10 x.num x.den
+    let sh : Int := (p : Int) - e
+    let N := if sh ≥ 0 then rheDiv (x.num * 10 ^ sh.toNat) x.den
+             else rheDiv x.num (x.den * 10 ^ (-sh).toNat)
+    if N ≥ 10 ^ (p + 1) then (N / 10, e + 1) else (N, e)
+
+/-- the exponent digits of `%e`: at least two -/
+def expDigits (e : Int) : Str :=
+  let ed := natDigits e.natAbs
+  if ed.length < 2 then '0' :: ed else ed
 
 /-- `'%.{p}e' % x` -/
 def fmtE (p : Nat) (x : Dbl) : Str :=
   let sgn : Str := if x.neg then ['-'] else []
-  let (N, e) : Nat × Int :=
-    if x.num == 0 then (0, 0)
-    else
-      let e := ilog10 x.num x.den
-      let sh : Int := (p : Int) - e
-      let N := if sh ≥ 0 then rheDiv (x.num * 10 ^ sh.toNat) x.den
-               else rheDiv x.num (x.den * 10 ^ (-sh).toNat)
-      if N ≥ 10 ^ (p + 1) then (N / 10, e + 1) else (N, e)
-  let ed := natDigits e.natAbs
-  let ed := if ed.length < 2 then '0' :: ed else ed
+  let N := (eParts p x).1
+  let e := (eParts p x).2
   sgn ++ natDigits (N / 10 ^ p) ++ (if p = 0 then [] else '.' :: fracDigits p N) ++
-    ['e', if e < 0 then '-' else '+'] ++ ed
+    ['e', if e < 0 then '-' else '+'] ++ expDigits e
 
 /-- `round(x)` (and `int(round(x, 0))`): nearest integer, ties to even. -/
 def roundInt (x : Dbl) : Int :=
